@@ -5,15 +5,11 @@ import (
 	"fmt"
 	"math/rand"
 	"os"
-	"path/filepath"
 	"regexp"
 	"sort"
 	"strings"
 	"sync"
 
-	"github.com/mimecast/dtail/internal/discovery"
-	"github.com/mimecast/dtail/internal/source"
-	"github.com/mimecast/dtail/verifharness/internal/dt"
 	"github.com/mimecast/dtail/verifharness/internal/vlib"
 )
 
@@ -39,7 +35,6 @@ type c18Result struct {
 
 func init() {
 	Drivers["C18"] = c18
-	Children["c18api"] = c18Child
 }
 
 func c18Expected(c c18Case) []string {
@@ -161,73 +156,6 @@ func c18Gen(rng *rand.Rand) c18Case {
 		c.Again = 1 + rng.Intn(3)
 	}
 	return c
-}
-
-func c18Child(args []string) int {
-	dir := args[0]
-	dt.Init(source.Client, "none", "none", "error", true)
-	return vlib.BatchMain(dir, func(i int, raw json.RawMessage) (out interface{}) {
-		var c c18Case
-		json.Unmarshal(raw, &c)
-		res := c18Result{}
-		defer func() {
-			if p := recover(); p != nil {
-				res.Panic = fmt.Sprint(p)
-				out = res
-			}
-		}()
-		nl := "\n"
-		if c.CRLF {
-			nl = "\r\n"
-		}
-		body := strings.Join(c.Entries, nl)
-		if c.FinalNL && len(c.Entries) > 0 {
-			body += nl
-		}
-		var d *discovery.Discovery
-		switch c.Kind {
-		case "comma":
-			d = discovery.New("", strings.Join(c.Entries, ","), discovery.Shuffle)
-		case "file":
-			p := filepath.Join(dir, fmt.Sprintf("servers-%d.txt", i))
-			os.WriteFile(p, []byte(body), 0644)
-			defer os.Remove(p)
-			d = discovery.New("", p, discovery.Shuffle)
-		case "module":
-			p := filepath.Join(dir, fmt.Sprintf("servers-%d.txt", i))
-			os.WriteFile(p, []byte(body), 0644)
-			defer os.Remove(p)
-			d = discovery.New("veriffile:"+p, "/"+c.Regex+"/", discovery.Shuffle)
-		}
-		res.List = d.ServerList()
-		if res.List == nil {
-			res.List = []string{}
-		}
-		// the same source discovered again in the same process (scheduled and
-		// continuous server jobs do this): every discovery must be right
-		if c.Again > 0 {
-			for k := 0; k < c.Again; k++ {
-				var d2 *discovery.Discovery
-				switch c.Kind {
-				case "comma":
-					d2 = discovery.New("", strings.Join(c.Entries, ","), discovery.Shuffle)
-				case "file":
-					d2 = discovery.New("", filepath.Join(dir, fmt.Sprintf("servers-%d.txt", i)), discovery.Shuffle)
-				case "module":
-					d2 = discovery.New("veriffile:"+filepath.Join(dir, fmt.Sprintf("servers-%d.txt", i)), "/"+c.Regex+"/", discovery.Shuffle)
-				}
-				l := d2.ServerList()
-				if k%2 == 1 {
-					l = d.ServerList() // and the same object asked twice
-				}
-				if l == nil {
-					l = []string{}
-				}
-				res.Again = append(res.Again, l)
-			}
-		}
-		return res
-	})
 }
 
 func c18(r *vlib.Run) int {
